@@ -761,6 +761,24 @@ def c10(rec):
     return out
 
 
+def c05markov(rec):
+    """C05 on the MarkovProduct binder: only the capture probes of c10 (a lazy MarkovProduct
+    substituted with a value whose free input is named like a bound variable), reported
+    under C05."""
+    if not rec["sig"].get("batch") or rec.get("param"):
+        return []
+    out = []
+    for v in c10(rec):
+        cl = v.get("clause") or ""
+        if v.get("status") == "mismatch" and cl.startswith("markov_lazy_subs"):
+            v = dict(v)
+            v["prop"] = "C05"
+            out.append(v)
+    if not out:
+        out.append(_verdict("C05", "agree", sig=json_sig(rec["sig"], rec["plus"], rec["times"])))
+    return out
+
+
 def json_sig(sig, plus, times):
     return "%s/%s %s" % (plus, times, ",".join("%s=%s" % (k, sig[k]) for k in sorted(sig)))
 
